@@ -41,11 +41,14 @@ pub struct Doc {
     pub inline_skip_code: Option<(usize, i32)>,
     pub fm_prepend: Vec<String>,
     pub fm_append: Vec<String>,
+    /// a Markdown document that is run with `--cram-compat` (single-script execution of the whole document)
+    #[serde(default)]
+    pub script_mode: bool,
 }
 
 impl Doc {
     pub fn new(name: &str, cram: bool, tests: Vec<B>) -> Self {
-        Self { name: name.into(), cram, tests, doc_skip_code: None, inline_skip_code: None, fm_prepend: vec![], fm_append: vec![] }
+        Self { name: name.into(), cram, tests, doc_skip_code: None, inline_skip_code: None, fm_prepend: vec![], fm_append: vec![], script_mode: false }
     }
     fn id(&self) -> String {
         self.name.replace('/', "_")
@@ -53,7 +56,7 @@ impl Doc {
     fn command(&self, i: usize, b: &B, extra: &str) -> (String, Vec<String>, Option<i32>, String) {
         // (command, expectation lines, written exit code, inline config)
         let log = format!("echo {}:{} >> \"$VERIF_LOG\"", self.id(), i);
-        let sub = |c: i32| if self.cram { format!("(exit {c})") } else { format!("exit {c}") };
+        let sub = |c: i32| if self.cram || self.script_mode { format!("(exit {c})") } else { format!("exit {c}") };
         let (cmd, exps, code, cfg): (String, Vec<String>, Option<i32>, String) = match b {
             B::Pass => ("true".into(), vec![], None, String::new()),
             B::FailOutput => ("echo other".into(), vec!["hello".into()], None, String::new()),
@@ -140,7 +143,7 @@ pub fn reference_doc(doc: &Doc, seq: &[(String, usize, B, i32)]) -> (Vec<&'stati
     // seq: (doc id, index, behaviour, effective skip code) of prepends + own + appends
     let mut kinds: Vec<&'static str> = vec![];
     let mut log = vec![];
-    let cram = doc.cram;
+    let cram = doc.cram || doc.script_mode;
     let mut i = 0;
     while i < seq.len() {
         let (id, idx, b, skip) = &seq[i];
@@ -281,6 +284,15 @@ impl Engine for VcCli {
                 let seconds: Vec<Option<Vec<B>>> = if w.len() == depth && !quick { vec![None] } else { vec![None, Some(vec![B::Pass]), Some(vec![B::FailOutput])] };
                 for second in seconds {
                     v.push(CliCase::Skip { doc: doc.clone(), second });
+                }
+                // the same Markdown document executed as one script (`--cram-compat`): default and front-matter skip code
+                if setting < 2 {
+                    let mut d2 = doc.clone();
+                    d2.script_mode = true;
+                    v.push(CliCase::Skip { doc: d2.clone(), second: None });
+                    if w.len() < depth {
+                        v.push(CliCase::Skip { doc: d2, second: Some(vec![B::Pass]) });
+                    }
                 }
             }
         }
@@ -527,6 +539,9 @@ fn check_skip(case: &CliCase, doc: &Doc, second: &Option<Vec<B>>) -> CaseResult 
         sb.write(&d2.name, d2.text(&|_| String::new()).as_bytes());
         args.push(d2.name.as_str());
     }
+    if doc.script_mode {
+        args.push("--cram-compat");
+    }
     let run = run_scrut(&sb, &args, &env_for(&sb), Duration::from_secs(60));
     let (mut want, _) = reference_doc(doc, &own_seq(doc));
     let doc_kinds = want.clone();
@@ -536,9 +551,9 @@ fn check_skip(case: &CliCase, doc: &Doc, second: &Option<Vec<B>>) -> CaseResult 
     if doc.tests.iter().any(|b| matches!(b, B::Exit { .. } | B::ScriptExit { .. })) {
         res.nontrivial.push(("C15", hash64(case)));
     }
-    let describe = || format!("{:?} (+ second document {:?})", doc.text(&|_| String::new()), second);
+    let describe = || format!("{:?}{} (+ second document {:?})", doc.text(&|_| String::new()), if doc.script_mode { " run with --cram-compat" } else { "" }, second);
     let kinds = kinds_of(&run);
-    res.outcome.push(("C15", hash64(&(doc.cram, doc.doc_skip_code, doc.inline_skip_code.is_some(), kinds.as_ref().ok().cloned(), run.status))));
+    res.outcome.push(("C15", hash64(&(doc.cram, doc.script_mode, doc.doc_skip_code, doc.inline_skip_code.is_some(), kinds.as_ref().ok().cloned(), run.status))));
     if want.contains(&"<error>") {
         if run.status != Some(1) {
             res.findings.push(Finding::new("C15", "script-exit-with-other-code-is-an-error", format!("{}: exit status 1", describe()), format!("{:?} {:?}", run.status, kinds)));
